@@ -14,3 +14,11 @@ if [ -f /log/plan ] && grep -qx "$tool:silent" /log/plan; then
 else
   vf_silent=0
 fi
+# "<tool>:partial" in the plan: the tool fails AFTER it has begun to write its output (ROOT opens its output file with RECREATE before it
+# looks at the input; a copy runs out of space half-way)
+if [ -f /log/plan ] && grep -qx "$tool:partial" /log/plan; then
+  echo "FAULT $tool" >> /log/cmds.txt
+  vf_partial=1
+else
+  vf_partial=0
+fi
